@@ -41,7 +41,7 @@ func prop(c Case) (o pbt.Outcome) {
 		o.Failf("harness", "server start: %v", err)
 		return
 	}
-	defer env.Stop()
+	defer env.StopBounded(3 * time.Second)
 	u := e2e.DefaultUsers[0]
 	hp := refproto.HashedPassword(u.Password, u.Name)
 	o.NonTrivial = c.MinuteOffset != 0 || c.KeyDeltaS != 0
